@@ -11,6 +11,7 @@ for d in sorted(os.listdir(os.path.join(V, 'seeded'))):
     m = json.load(open(mp))
     lr = m.get('last_run') or {}
     outcome, obls = 'not run', ''
+    per = []
     for pid, c in (lr.get('checks') or {}).items():
         ex = c.get('exit')
         vio = [l for l in c.get('lines', []) if l.startswith('VIOLATION')]
@@ -20,8 +21,20 @@ for d in sorted(os.listdir(os.path.join(V, 'seeded'))):
             if mm:
                 names.append(mm.group(1)[:70])
         replayed = any('no-failing-input-found' not in l for l in vio)
-        outcome = {0: 'MISSED (exit 0)', 1: 'caught' + (' (input replayed)' if replayed else ' (no-failing-input-found)'), 2: 'undecided (exit 2)', 3: 'checker error'}.get(ex, str(ex))
-        obls = '; '.join(dict.fromkeys(names))[:150]
+        per.append((pid, ex, replayed, names))
+    if per:
+        hit = [x for x in per if x[1] == 1]
+        own = d.split('-')[0]
+        if hit:
+            # caught by at least one of the checks listed for the seed (meta.json: checks); the property's own check first
+            hit.sort(key=lambda x: (x[0] != own, not x[2]))
+            pid, ex, replayed, names = hit[0]
+            others = ['%s: exit %s' % (x[0], x[1]) for x in per if x[0] != pid]
+            outcome = 'caught' + ('' if pid == own else ' by %s' % pid) + (' (input replayed)' if replayed else ' (no-failing-input-found)') + ((' [' + ', '.join(others) + ']') if others else '')
+            obls = '; '.join(dict.fromkeys(names))[:150]
+        else:
+            worst = max(x[1] for x in per)
+            outcome = {0: 'MISSED (exit 0)', 2: 'undecided (exit 2)', 3: 'checker error'}.get(worst, str(worst)) + (' [' + ', '.join('%s: exit %s' % (x[0], x[1]) for x in per) + ']' if len(per) > 1 else '')
     demo = ''
     if 'demo_without' in lr:
         demo = 'demo %s->%s' % (lr.get('demo_without'), lr.get('demo_with'))
